@@ -79,9 +79,64 @@ pub fn check_batches(c: &BatchCase) -> CaseResult {
     let mut expired_total = 0u32;
     let mut plans_ordering = 0usize;
     let mut choice_pos = 0usize;
+    // results of pipelined batches still being drained by their own threads
+    let mut pendings: Vec<(usize, Pending)> = vec![];
+    let mut pipelined = 0usize;
+    let mut installed_keep: Option<sched::Installed> = None;
+    let mut process = |bi: usize, b: &Vec<(u64, Vec<Det>)>, results: Vec<(u64, Vec<Rec>)>, tr: &Tracker, got: &mut BTreeMap<u64, Vec<Vec<Rec>>>, issued: &mut BTreeSet<u64>, live: &mut BTreeSet<u64>, check_own: bool| -> Result<(), Fail> {
+        // (b) exactly one result per scene of the batch, records in submission order
+        ensure!(results.len() == b.len(), "batch-result-count", "batch {}: {} results for {} scenes", bi, results.len(), b.len());
+        let mut seen = BTreeSet::new();
+        let mut new_ids_in_batch = BTreeSet::new();
+        for (scene, recs) in &results {
+            ensure!(seen.insert(*scene), "batch-scene-twice", "batch {}: two results for scene {}", bi, scene);
+            let dets = match b.iter().find(|x| x.0 == *scene) {
+                Some(x) => &x.1,
+                None => return Err(Fail::new("batch-foreign-scene", format!("batch {}: result for scene {} which is not part of the batch", bi, scene))),
+            };
+            ensure!(recs.len() == dets.len(), "batch-record-count", "batch {} scene {}: {} records for {} detections", bi, scene, recs.len(), dets.len());
+            let mut ids = BTreeSet::new();
+            for (i, r) in recs.iter().enumerate() {
+                ensure!(r.custom == dets[i].custom && r.scene == *scene && same_box(&r.observed, &dets[i].b, 2.0), "batch-record-order", "batch {} scene {}: record {} does not echo detection {} ({:?} vs {:?})", bi, scene, i, i, r, dets[i].b);
+                ensure!(ids.insert(r.id), "batch-duplicate-id", "batch {} scene {}: track id {} given to two detections", bi, scene, r.id);
+                if r.length == 1 {
+                    ensure!(!issued.contains(&r.id) && new_ids_in_batch.insert(r.id), "batch-id-reused", "batch {} scene {}: new track gets id {} which was issued before", bi, scene, r.id);
+                } else {
+                    ensure!(live.contains(&r.id), "batch-unknown-track", "batch {} scene {}: record continues unknown track {}", bi, scene, r.id);
+                }
+            }
+            // the exclusively-owned share stored with each new observation is the one of its own
+            // scene's detection set
+            if check_own && cfg.kind.is_visual() && cfg.vis.own_use + cfg.vis.own_collect > 0.0 {
+                let rb: Vec<crate::oracle::geom::RBox> = dets.iter().map(|d| d.b.rbox()).collect();
+                for (i, r) in recs.iter().enumerate() {
+                    if let Some(v) = tr.view(r.id) {
+                        if let Some(stored) = v.gallery.first().and_then(|g| g.own_area) {
+                            let want = crate::oracle::geom::exclusive_area(&rb, i) / rb[i].area();
+                            ensure!((stored as f64 - want).abs() <= 2e-3, "batch-own-area", "batch {} scene {}: detection {} is stored with own-area share {} but {} of it is uncovered by the other detections of its scene", bi, scene, i, stored, want);
+                        }
+                    }
+                }
+            }
+            got.entry(*scene).or_default().push(recs.clone());
+        }
+        for (_, recs) in &results {
+            for r in recs {
+                issued.insert(r.id);
+                live.insert(r.id);
+            }
+        }
+    
+        Ok(())
+    };
     for (bi, b) in batches.iter().enumerate() {
         if b.is_empty() {
             continue;
+        }
+        // the plan of the previous (pipelined) batch stays in force until the next one is installed
+        if let Some(inst) = installed_keep.take() {
+            expired_total += inst.ctl.expired();
+            drop(inst);
         }
         let installed = if c.controlled {
             // total order over the voting jobs of this batch (begin .. end) and, interleaved, the
@@ -145,53 +200,35 @@ pub fn check_batches(c: &BatchCase) -> CaseResult {
         } else {
             None
         };
-        let results = tr.predict_batch(b, c.drain_thread.get(bi).copied().unwrap_or(false));
-        if let Some(inst) = installed {
-            expired_total += inst.ctl.expired();
-            drop(inst);
-        }
-        // (b) exactly one result per scene of the batch, records in submission order
-        ensure!(results.len() == b.len(), "batch-result-count", "batch {}: {} results for {} scenes", bi, results.len(), b.len());
-        let mut seen = BTreeSet::new();
-        let mut new_ids_in_batch = BTreeSet::new();
-        for (scene, recs) in &results {
-            ensure!(seen.insert(*scene), "batch-scene-twice", "batch {}: two results for scene {}", bi, scene);
-            let dets = match b.iter().find(|x| x.0 == *scene) {
-                Some(x) => &x.1,
-                None => return Err(Fail::new("batch-foreign-scene", format!("batch {}: result for scene {} which is not part of the batch", bi, scene))),
-            };
-            ensure!(recs.len() == dets.len(), "batch-record-count", "batch {} scene {}: {} records for {} detections", bi, scene, recs.len(), dets.len());
-            let mut ids = BTreeSet::new();
-            for (i, r) in recs.iter().enumerate() {
-                ensure!(r.custom == dets[i].custom && r.scene == *scene && same_box(&r.observed, &dets[i].b, 2.0), "batch-record-order", "batch {} scene {}: record {} does not echo detection {} ({:?} vs {:?})", bi, scene, i, i, r, dets[i].b);
-                ensure!(ids.insert(r.id), "batch-duplicate-id", "batch {} scene {}: track id {} given to two detections", bi, scene, r.id);
-                if r.length == 1 {
-                    ensure!(!issued.contains(&r.id) && new_ids_in_batch.insert(r.id), "batch-id-reused", "batch {} scene {}: new track gets id {} which was issued before", bi, scene, r.id);
-                } else {
-                    ensure!(live.contains(&r.id), "batch-unknown-track", "batch {} scene {}: record continues unknown track {}", bi, scene, r.id);
-                }
+
+        let pipeline = c.drain_thread.get(bi).copied().unwrap_or(false);
+        if pipeline {
+            // submit without waiting for the results of this or of earlier pipelined batches
+            let p = tr.submit_batch(b).expect("batch tracker");
+            pendings.push((bi, p));
+            pipelined += 1;
+            installed_keep = installed;
+        } else {
+            // results retrieved by the caller: earlier pipelined batches are collected first
+            for (pbi, p) in pendings.drain(..) {
+                let results = p.collect();
+                process(pbi, &batches[pbi], results, &tr, &mut got, &mut issued, &mut live, false)?;
             }
-            // the exclusively-owned share stored with each new observation is the one of its own
-            // scene's detection set
-            if cfg.kind.is_visual() && cfg.vis.own_use + cfg.vis.own_collect > 0.0 {
-                let rb: Vec<crate::oracle::geom::RBox> = dets.iter().map(|d| d.b.rbox()).collect();
-                for (i, r) in recs.iter().enumerate() {
-                    if let Some(v) = tr.view(r.id) {
-                        if let Some(stored) = v.gallery.first().and_then(|g| g.own_area) {
-                            let want = crate::oracle::geom::exclusive_area(&rb, i) / rb[i].area();
-                            ensure!((stored as f64 - want).abs() <= 2e-3, "batch-own-area", "batch {} scene {}: detection {} is stored with own-area share {} but {} of it is uncovered by the other detections of its scene", bi, scene, i, stored, want);
-                        }
-                    }
-                }
+            let results = tr.predict_batch(b, false);
+            if let Some(inst) = installed {
+                expired_total += inst.ctl.expired();
+                drop(inst);
             }
-            got.entry(*scene).or_default().push(recs.clone());
+            process(bi, b, results, &tr, &mut got, &mut issued, &mut live, true)?;
         }
-        for (_, recs) in &results {
-            for r in recs {
-                issued.insert(r.id);
-                live.insert(r.id);
-            }
-        }
+    }
+    for (pbi, p) in pendings.drain(..) {
+        let results = p.collect();
+        process(pbi, &batches[pbi], results, &tr, &mut got, &mut issued, &mut live, false)?;
+    }
+    if let Some(inst) = installed_keep.take() {
+        expired_total += inst.ctl.expired();
+        drop(inst);
     }
     // shutdown
     if c.drop_mode == 1 {
@@ -245,6 +282,7 @@ pub fn check_batches(c: &BatchCase) -> CaseResult {
         .label_if(expired_total > 0, "plan_deviation")
         .label_if(achieved, "ordering_plan_achieved")
         .label_if(cut_calls > 0, "cut_at_fragile_call")
+        .label_if(pipelined > 0, "pipelined_batches")
         .label_if(c.drop_mode == 1, "dropped_with_abandoned_result"))
 }
 
